@@ -170,17 +170,24 @@ Lemma step_mon : forall i s o rs l,
   nth_error s i = Some l -> op_ok o = true -> Inv l rs ->
   exists l', nth_error (fst (step s o)) i = Some l' /\
     snd (mon_step rs (kind_of (Z.of_nat i) o) l l') = 0%N /\
-    Inv l' (fst (mon_step rs (kind_of (Z.of_nat i) o) l l')).
+    Inv l' (fst (mon_step rs (kind_of (Z.of_nat i) o) l l')) /\
+    (cum_on (Z.of_nat i) o = true -> a_proof (la l') = a_proof (la l)).
 Proof.
   intros i s o rs l Hn Hok HI.
+  cut (exists l', nth_error (fst (step s o)) i = Some l' /\
+         (snd (mon_step rs (kind_of (Z.of_nat i) o) l l') = 0%N /\
+          Inv l' (fst (mon_step rs (kind_of (Z.of_nat i) o) l l'))) /\
+         (cum_on (Z.of_nat i) o = true -> a_proof (la l') = a_proof (la l))).
+  { intros (l' & A & (B & C) & D). exists l'. auto. }
   destruct (op_target o) eqn:T.
   2:{ destruct o; try discriminate.
       destruct (step_select_nth s last now cfg ins i l Hn) as (l' & E & D).
-      exists l'. split; [exact E|]. cbn [kind_of]. apply call_ok; auto. cbn in Hok. lia. }
+      exists l'. split; [exact E|]. split; [|cbn; discriminate]. cbn [kind_of]. apply call_ok; auto. cbn in Hok. lia. }
   assert (Tn : op_target o <> None) by congruence.
   rewrite (step_env_nth s o i Tn), Hn. cbn [option_map].
   destruct (targets o i) eqn:Tg.
   - exists (env_link o l). split; [reflexivity|].
+    split; [|destruct o; cbn; try discriminate; intros _; reflexivity].
     assert (R : (exists j, o = OReset j) \/ (forall j, o <> OReset j)).
     { destruct o; try (right; intros j0 Hc; discriminate). left; eauto. }
     destruct R as [[j ->] | NR].
@@ -189,7 +196,7 @@ Proof.
       apply other_ok; auto.
       * apply env_link_guard; exact NR.
       * apply env_proof; auto.
-  - exists l. split; [reflexivity|].
+  - exists l. split; [reflexivity|]. split; [|intros _; reflexivity].
     assert (K : kind_of (Z.of_nat i) o = KOther).
     { destruct o; try reflexivity; try discriminate. apply untargeted_reset_kind; exact Tg. }
     rewrite K. apply other_ok; auto.
@@ -206,10 +213,13 @@ Proof.
   cbn [trace]. destruct (step s o) as [s' r] eqn:St. cbn [mon_link t_pre t_post t_op].
   assert (S' : s' = fst (step s o)) by (rewrite St; reflexivity).
   destruct (nth_error s i) as [l|] eqn:Hn.
-  - destruct (step_mon i s o rs l Hn Ho (HI l eq_refl)) as (l' & E & C & I').
+  - destruct (step_mon i s o rs l Hn Ho (HI l eq_refl)) as (l' & E & C & I' & CU).
     rewrite <- S' in E. rewrite E.
     destruct (mon_step rs (kind_of (Z.of_nat i) o) l l') as [rs' cl] eqn:M. cbn [fst snd] in *.
-    subst cl. cbn. apply IH; [|exact Ht]. intros l0 H0. rewrite E in H0. inversion H0; subst. exact I'.
+    subst cl. unfold cum_clause. cbn [N.eqb andb].
+    assert (Q : cum_on (Z.of_nat i) o && negb (a_proof (la l') =? a_proof (la l)) = false).
+    { destruct (cum_on (Z.of_nat i) o); [|reflexivity]. rewrite (CU eq_refl), Z.eqb_refl. reflexivity. }
+    rewrite Q. cbn. apply IH; [|exact Ht]. intros l0 H0. rewrite E in H0. inversion H0; subst. exact I'.
   - assert (E : nth_error s' i = None).
     { apply nth_error_None. rewrite S', step_length. apply nth_error_None. exact Hn. }
     apply IH; [|exact Ht]. intros l0 H0. rewrite E in H0. discriminate.
@@ -484,6 +494,9 @@ Proof.
   - unfold mon_step in H. cbn [fst] in H. apply fresh_run_extend; [apply IH; exact H | right; right; right; exact K].
 Qed.
 
+Lemma cum_clause_select : forall i a b c d pre post cl, cum_clause i (OSelect a b c d) pre post cl = cl.
+Proof. intros. unfold cum_clause. cbn [cum_on]. rewrite andb_false_r. reflexivity. Qed.
+
 Lemma mon_link_app : forall i a rs b k,
   mon_link i rs (a ++ b) k = (0, 0)%N ->
   exists k', mon_link i (fold_left (rs_step i) a rs) b k' = (0, 0)%N.
@@ -493,7 +506,8 @@ Proof.
   destruct (nth_error (t_pre t) i) as [pre|]; [|apply (IH _ _ _ H)].
   destruct (nth_error (t_post t) i) as [post|]; [|apply (IH _ _ _ H)].
   destruct (mon_step rs (kind_of (Z.of_nat i) (t_op t)) pre post) as [rs' cl] eqn:M.
-  destruct (N.eqb_spec cl 0); [cbn [fst]; apply (IH _ _ _ H)|].
+  cbn zeta in H.
+  destruct (N.eqb_spec (cum_clause i (t_op t) pre post cl) 0); [cbn [fst]; apply (IH _ _ _ H)|].
   inversion H. congruence.
 Qed.
 
@@ -512,7 +526,7 @@ Proof.
   rewrite Tr in M. apply mon_link_app in M as [k' M].
   set (r := fold_left (rs_step i) pre None) in *.
   cbn [mon_link] in M. rewrite Hl, Hl', Eo in M. cbn [kind_of] in M.
-  destruct (mon_step r (KCall now cfg) l l') as [rs' cl] eqn:MS.
+  destruct (mon_step r (KCall now cfg) l l') as [rs' cl] eqn:MS. cbn zeta in M. rewrite cum_clause_select in M.
   destruct (N.eqb_spec cl 0) as [-> | Hc]; [|inversion M; congruence]. clear M.
   assert (RS : fold_left (rs_step i) (pre ++ [t]) None = rs').
   { rewrite fold_left_app. cbn [fold_left]. fold r. unfold rs_step. rewrite Hl, Hl', Eo. cbn [kind_of].
